@@ -1,6 +1,7 @@
 //! Codec scenarios: C03 (N-Triples/N-Quads), C04 (Turtle/TriG), C12 (JSON-LD), C18 (RDF/XML),
 //! C08 (parser totality). See /verif/DESIGN.md §5.
 
+mod c08;
 mod formats;
 mod rt;
 
@@ -516,6 +517,19 @@ fn scenarios() -> Vec<Scenario> {
                 "rio_turtle",
             ],
             ..base("C04", 0xC04, run_c04)
+        },
+        Scenario {
+            quick_runs: 150_000,
+            thorough_runs: 12_000_000,
+            rule: "one run = one document (real serializer output, hand corpus, foreign-syntax corpus, deep nesting or long token) held by simulated storage, corrupted by 0-3 tape-drawn edits (truncation, bit flip, byte replace/insert/delete, dictionary token, duplicated or swapped chunk), parsed one-shot and again through a noisy/failing SimReader; distinct = distinct signature (parser, document origin, corruption kinds, read fault kind and position class); non-trivial = a corruption or channel fault fired, or >= 2 probes",
+            real_components: &[
+                "sophia_turtle::parser::{nt,nq,gnq,turtle,trig,gtrig}",
+                "sophia_xml::parser",
+                "sophia_jsonld::JsonLdParser (NoLoader)",
+                "sophia_rio::model (Trusted term wrappers)",
+                "rio_turtle, rio_xml, quick-xml, json-ld, json-syntax, oxiri",
+            ],
+            ..base("C08", 0xC08, c08::run_c08)
         },
         Scenario {
             quick_runs: 25_000,
